@@ -281,6 +281,64 @@ PLANS.update({
 })
 
 
+def A_words(name, maxlen, sigma, depth=10000, **kw):
+    def run(ctx):
+        consts = {'MaxLen': maxlen, 'SigmaId': '"%s"' % sigma, 'EmitOn': 'TRUE', 'MaxDepth': depth, 'MaxNest': depth}
+        run_A(ctx, 'MCScanner', name, consts, invariants=('ScanOK', 'LanguageEq', 'ErrorAbsorbs', 'TransducersOK'), spec='SSpec', **kw)
+    return run
+
+
+TEXT_ASSUME = [
+    'words over the representative alphabets of spec/MCScanner.tla (full: 37 symbols incl. structural characters, digits, exponent, escapes, '
+    'controls 0x00 0x1f 0x7f, white space, a 2-byte and a 3-byte UTF-8 symbol, < and &), all words up to the stated length whose every '
+    'proper prefix is viable; nesting limit 10000 as in the code',
+    'the independent JSON reader of harness/jsonread must agree with the specification grammar on every word (self-check, exit 2 otherwise)',
+]
+
+PLANS.update({
+    'C16': {
+        'quick': [A_words('w4', 4, 'full')],
+        'thorough': [A_words('w5', 5, 'full', timeout=9000), A_words('w7s', 7, 'tiny', timeout=9000)],
+        'rule': 'TLC enumerates every word up to the stated length (extending viable prefixes only, so first-error words are included), checks '
+                'on the specification that the scanner automaton (Scanner.tla, a transcription of scanner.go) accepts exactly the texts of '
+                'the declarative RFC 8259 grammar (JsonText.tla) and that Compact/Indent accept the same language; every word, bare and '
+                'wrapped in white space, is given to the codec\'s Valid/Compact/Indent/Unmarshal/Decoder and to DecodePatch, Apply, '
+                'MergePatch (both positions), MergeMergePatches (both), CreateMergePatch, Equal, whose accept/reject must equal the '
+                'specification verdict composed with the shape each entry point requires; distinct_nontrivial counts words',
+        'exhaustive': True, 'assumptions': TEXT_ASSUME,
+        'required_labels': {t: ['Word_invalid', 'Word_valid_obj', 'Word_valid_arr', 'Word_valid_num', 'Word_valid_str', 'Word_valid_null']
+                            for t in ('quick', 'thorough')},
+    },
+})
+
+
+def A_codec(name, level, **kw):
+    def run(ctx):
+        consts = {'Level': level, 'EmitOn': 'TRUE', 'MaxNest': 10000, 'MaxDepth': 10000}
+        run_A(ctx, 'MCCodec', name, consts, invariants=('ParseEnc', 'SortedIsEqual', 'TransducersOnEnc'), spec='CSpec', **kw)
+    return run
+
+
+PLANS.update({
+    'C17': {
+        'quick': [A_words('w4', 4, 'full', extra_opt='wrap=0'), A_codec('enc', 2)],
+        'thorough': [A_words('w5', 5, 'full', extra_opt='wrap=0', timeout=9000), A_codec('enc', 3, timeout=9000)],
+        'rule': 'words: for every word of the bounded language the codec\'s Compact, Indent (two prefix/indent pairs), HTMLEscape and '
+                'compact-with-escaping outputs must equal, byte for byte, the transducers of Scanner.tla (which TLC has checked to keep the '
+                'value); Unmarshal then Marshal/MarshalEscaped must reproduce the value read by the independent reader (numbers by literal); '
+                'UnmarshalWithKeys/UnmarshalValidWithKeys must report the member names in document order; values: for every universe value '
+                'and a set of awkward strings/numbers, decode(Enc(v)) re-encoded must equal Enc(SortKeys(v), esc) for both settings, also '
+                'through Encoder; on the same inputs the results are compared with encoding/json (b/f escapes normalised, Number kept) - '
+                'that last comparison is differential and is labelled std-diff; distinct_nontrivial counts words + values',
+        'exhaustive': True,
+        'assumptions': TEXT_ASSUME + ['struct types with tags, embedding and the Decoder/Encoder token stream are NOT modelled by the '
+                                      'specification: for them C17 is covered only by the differential comparison with encoding/json in the '
+                                      'C17 struct stage (see DESIGN.md section 8)'],
+        'required_labels': {t: ['Word_invalid', 'Word_valid_obj', 'Word_valid_str', 'Enc_obj', 'Enc_str', 'Enc_num'] for t in ('quick', 'thorough')},
+    },
+})
+
+
 def replay_file(ctx, plan, path):
     """Re-run one recorded case (bin/check <id> --replay <file>)."""
     v = json.load(open(path))
